@@ -148,3 +148,53 @@ def allvalid(v, g, bound=None):
     b = bound or (v + '.n')
     body = '(!({k} < %s.n) || (spline_valid(%s.d[{k}]) && same_grid_obj(SP_GRID(%s.d[{k}]), %s)))' % (v, v, v, g)
     return allk(b, body)
+
+
+# ---- interpolation (contracts/interp.ctr, bounded C12 block) ----------------------------------------------------
+# Products and quotients are written with BS_MUL / BS_DIV in the association interpolate uses (power_k = power_{k-1} * u,
+# row entry = ratio * power, term = entry * unknown), so that the block can be decided with multiplication as an
+# arbitrary function (BS_OPAQUE_MUL): what is proved for every binary function holds for * in particular, where the
+# expressions below are the value / the d-th derivative of the interval's polynomial at the interval's end point.
+def ip_x(q):
+    """abscissa q of the support x"""
+    return 'GRID(x._grid, S_START(x) + %s)' % q
+
+
+def ip_u(j, side):
+    """local coordinate (relative to the midpoint) of the left ('L') or right ('R') end point of interval j"""
+    a, b = (ip_x(j), ip_x('%s + 1' % j)) if side == 'L' else (ip_x('%s + 1' % j), ip_x(j))
+    return 'BS_DIV((%s - %s), 2)' % (a, b)
+
+
+def ip_pow(u, k):
+    p = '1'
+    for _ in range(k):
+        p = 'BS_MUL(%s, %s)' % (p, u)
+    return p
+
+
+def ip_fr(k, d):
+    f = 1
+    for t in range(k - d + 1, k + 1):
+        f *= t
+    return f
+
+
+def ip_dterms(j, d, u, N, neg=False):
+    """terms of the d-th derivative at local coordinate u of the polynomial stored for interval j (order N):
+    k!/(k-d)! * u^(k-d) * a_k for k = d..N; d = 0: the value"""
+    out = []
+    for k in range(d, N + 1):
+        pw = ip_pow(u, k - d)
+        ent = pw if d == 0 else 'BS_MUL(%s, %s)' % (('(0 - %d)' % ip_fr(k, d)) if neg else str(ip_fr(k, d)), pw)
+        out.append('BS_MUL0(%s, ret._coefficients.d[%s].c[%d])' % (ent, j, k))
+    return out
+
+
+def ip_dval(j, d, u, N):
+    return '(' + ' + '.join(ip_dterms(j, d, u, N)) + ')'
+
+
+def ip_jump(jl, jr, d, N):
+    """(d-th derivative from the left) - (d-th derivative from the right) at the node between intervals jl and jr"""
+    return '(' + ' + '.join(ip_dterms(jl, d, ip_u(jl, 'R'), N) + ip_dterms(jr, d, ip_u(jr, 'L'), N, neg=True)) + ')'
